@@ -159,6 +159,9 @@ _sm3_ctx_mgr_submit_base(ISAL_SM3_HASH_CTX_MGR *mgr, ISAL_SM3_HASH_CTX *ctx, con
                 return ctx;
         }
 
+        // A valid call: do not report the error of an earlier, rejected one
+        ctx->error = ISAL_HASH_CTX_ERROR_NONE;
+
         if (flags == ISAL_HASH_FIRST) {
                 sm3_init(ctx, buffer, len);
                 sm3_update(ctx, buffer, len);
